@@ -51,8 +51,8 @@ M = [
      "        index = self.fh.to_absolute(self.cutoff)\n        return pd.Series(y_pred, index=index)\n",
      "        index = self.fh.to_absolute(self._y.index[len(self._y) - 1] if not hasattr(self, '_c0') else self._c0)\n        self._c0 = getattr(self, '_c0', self.cutoff)\n        return pd.Series(y_pred, index=index)\n"),
     ("c09_inverse_in_forward_order", "C09", "sktime/forecasting/compose/_pipeline.py",
-     "        for _, _, transformer in self._iter_transformers(reverse=True):\n            if not _has_tag(transformer, \"skip-inverse-transform\"):\n                y_pred = transformer.inverse_transform(y_pred)\n",
-     "        for _, _, transformer in self._iter_transformers(reverse=False):\n            if not _has_tag(transformer, \"skip-inverse-transform\"):\n                y_pred = transformer.inverse_transform(y_pred)\n"),
+     "        for _, _, transformer in self._iter_transformers(reverse=True):\n            # skip sktime",
+     "        for _, _, transformer in self._iter_transformers(reverse=False):\n            # skip sktime"),
     ("c09_stack_leak", "C09", "sktime/forecasting/compose/_stack.py",
      "        y_fcst = y.iloc[train_window]\n", "        y_fcst = y\n"),
     ("c09_ensemble_no_clone", "C09", "sktime/forecasting/base/_meta.py",
@@ -96,9 +96,8 @@ M = [
     ("c20_no_dup_check_for_arrays", "C20", "sktime/forecasting/base/_fh.py",
      "    if len(values) != values.nunique():\n",
      "    if len(values) != values.nunique() and len(values) < 3:\n"),
-    ("c20_update_skips_y_check", "C20", "sktime/forecasting/compose/_ensemble.py",
-     "        self.check_is_fitted()\n        self._update_y_X(y, X)\n        for forecaster in self.forecasters_:\n",
-     "        self.check_is_fitted()\n        self._y = y.combine_first(self._y) if hasattr(y, 'combine_first') else self._y\n        for forecaster in self.forecasters_:\n"),
+    ("c20_stack_skips_final_regressor_check", "C20", "sktime/forecasting/compose/_stack.py",
+     "        self._check_final_regressor()\n", "        pass\n"),
 ]
 
 
@@ -125,7 +124,7 @@ def main():
                 continue
             open(f, "w").write(s.replace(old, new, 1))
             base = sh(["/venv/bin/python", "-m", "pytest", "-q", "-p", "no:cacheprovider",
-                       "sktime/utils", "-q", "--continue-on-collection-errors"], cwd=wt, timeout=900)
+                       "sktime/utils", "--continue-on-collection-errors"], cwd=wt, timeout=900)
             passed = re.findall(r"(\d+) passed", base.stdout)
             t0 = time.time()
             c = sh([os.path.join(VERIF, "check"), prop], env=dict(os.environ, VERIF_REPO=wt), timeout=3600)
